@@ -113,6 +113,8 @@ pub fn reductions(e: &E) -> Vec<E> {
     for c in children(e) {
         out.push(c);
     }
+    // the node replaced by a canonical atom
+    out.extend([E::Int(1), E::Unit, E::Val]);
     out.extend(local(e));
     // a child replaced by one of its reductions
     let kids = children(e);
